@@ -1,5 +1,6 @@
 import AvroModel.Theorems.C17
 import AvroModel.Theorems.C17stream
+import AvroModel.Theorems.C17class
 /-
 C17 — all parts together: the reader state machine (`C17.lean`) and the truncation-prefix theorem
 with the real datum deserializer on a cut block, on the streaming back-end under any chunk
